@@ -10,6 +10,7 @@ import (
 	"encoding/json"
 	"fmt"
 	"os"
+	"runtime"
 )
 
 type replay struct {
@@ -168,7 +169,14 @@ func AnyMapOrder(f func()) { f() }
 func Stub(target string, replacement interface{}) {}
 func Unstub(target string)                        {}
 
-func Yield(point string)       {}
+// TaskModel makes the executor schedule goroutines as tasks whose interleaving (at Lock, Unlock,
+// Wait, Yield, spawn and task end) is chosen by the solver. Natively goroutines just run.
+func TaskModel() {}
+
+// PreemptionBound limits how often the executor switches away from a task that could continue.
+func PreemptionBound(n int) {}
+
+func Yield(point string) { runtime.Gosched() }
 func Note(s string)            {}
 func Setenv(k, v string)       { os.Setenv(k, v) }
 func Replaying() bool          { return true }
